@@ -228,3 +228,21 @@ example : isOperation (.obj [("va".toList, .null)]) = false ∧ isOperation (.ob
 example : isOperation (.obj [("!".toList, .null)]) = true ∧ isOperation (.obj [("!=".toList, .null)]) = true ∧ isOperation (.obj [("!==".toList, .null)]) = true := by decide
 
 end JL.Props.C02
+
+namespace JL.Props.C02
+open JL
+
+/-- the operator keys the hand-written model implements, per table (`execEager`, `execData`, the lazy branch of `run`) -/
+def modelEager : List Str := ["==", "!=", "===", "!==", "!", "!!", "<", "<=", ">", ">=", "+", "*", "-", "/", "%", "max", "min",
+  "merge", "in", "cat", "substr", "log"].map String.toList
+def modelData : List Str := ["var", "missing", "missing_some"].map String.toList
+def modelLazy : List Str := ["if", "?:", "or", "and", "map", "filter", "reduce", "all", "some", "none"].map String.toList
+
+/-- **The model covers the tables as they stand in the source now**: every key of each regenerated table is implemented by the
+model *in that same table's evaluation discipline* (eager / data / lazy), and vice versa. Moving an operator between tables, or
+adding one, makes this fail to check (the model's dispatch would be stale). -/
+theorem model_covers_tables :
+    (Tables.eager.map (·.key)).Perm modelEager ∧ (Tables.data.map (·.key)).Perm modelData ∧ (Tables.lazy.map (·.key)).Perm modelLazy := by
+  refine ⟨?_, ?_, ?_⟩ <;> decide
+
+end JL.Props.C02
